@@ -125,6 +125,54 @@ func (ch c03) Run(c *core.Ctx) {
 		}
 		ch.segmentation(c, envPlain, envAuth, core.NewRng(c.Seed, "C03s", c.Batch, i), segs, i)
 	}
+	// a server with certificates on which a few clients got their 'S' and then gave up (hung up, or sent
+	// something that is no handshake); afterwards two connections are open at the same time: each one's
+	// transcript is a function of its own bytes
+	if c.Batch%4 == 1 && c.Begin(90000) {
+		envT := hs.Start(hs.Parse, wire.MessageBufferSize(1<<16), wire.TLSConfig(hs.ServerTLS()))
+		for k := 0; k < 4; k++ {
+			conn := envT.Dial(nil)
+			conn.Send(pg.SSLRequest())
+			conn.Quiesce()
+			if k%2 == 1 {
+				conn.Send([]byte("this is no ClientHello\n"))
+				conn.Quiesce()
+			}
+			conn.CloseWrite()
+			conn.WaitClosed()
+		}
+		echo := func(tag string) *hs.Sess {
+			return &hs.Sess{Default: func(q string) *hs.Prog {
+				return &hs.Prog{Stmts: []*hs.Stmt{{ID: tag, Cols: textCols(1), Ops: []hs.Op{{K: "row", Vals: []any{tag + " answers " + q}}, {K: "complete", Tag: "SELECT 1"}}}}}
+			}}
+		}
+		var cls []*hs.Client
+		for k := 0; k < 3; k++ {
+			cl := hs.NewClient(envT.Dial(echo(fmt.Sprintf("conn%d", k))))
+			if err := cl.StartupOK(fmt.Sprintf("u%d", k)); err != nil {
+				c.Violate("neighbours", "a connection opened after failed TLS handshakes of other clients is not served", err.Error(), nil)
+			}
+			cls = append(cls, cl)
+		}
+		for round := 0; round < 3 && c.NViol() == 0; round++ {
+			for k, cl := range cls {
+				q := fmt.Sprintf("round %d of connection %d", round, k)
+				out, _ := cl.Step(pg.Query(q))
+				msgs := mustMsgs(out)
+				if want := fmt.Sprintf("conn%d answers %s", k, q); pg.Types(msgs) != "TDCZ" || string(msgs[1].Fields[0]) != want {
+					c.Violate("neighbours", "connections open at the same time (after failed TLS handshakes of other clients) get each other's traffic or none", fmt.Sprintf("connection %d sent %q and got %s", k, q, trim(replyKinds(out), 200)), nil)
+					break
+				}
+			}
+		}
+		for _, cl := range cls {
+			cl.C.CloseWrite()
+			cl.C.WaitClosed()
+		}
+		envT.Stop()
+		c.Count("neighbour_rounds_after_failed_handshakes", 1)
+		c.Eval("neighbours after failed handshakes", true)
+	}
 	for i := 0; i < nsurplus; i++ {
 		if !c.Begin(100000+i) || c.NViol() >= 10 {
 			continue
